@@ -9,7 +9,7 @@
 (* stream (longer than x); the ghost field `orc` records "inflates to x".                        *)
 (* Deviation switches as in Codecs (DESIGN 2.9): run with FALSE = as repaired (no counter-        *)
 (* example), TRUE = as the code is (counter-example = the known finding).                        *)
-EXTENDS StreamOps
+EXTENDS StreamOps, Json
 
 CONSTANTS MaxSteps, DevAvg, DevArr, DevStale
 
@@ -73,14 +73,24 @@ LengthInv == \A i \in 1..2 : LengthOK(ss[i])
 Touched(i) == last.i = 0 \/ last.i = i
 
 \* every step satisfies the declarative contract of its operation
-StepOK ==
-    \A i \in 1..2 :
-        IF ~Touched(i) THEN last.op = "init" \/ ss[i] = last.pre[i]
-        ELSE CASE last.op = "set_content"       -> SetContentOK(last.pre[i], last.arg, ss[i])
-               [] last.op = "set_plain_content" -> SetPlainOK(last.pre[i], last.arg, ss[i])
-               [] last.op \in {"compress", "doc_compress"}     -> CompressOK(last.pre[i], ss[i])
-               [] last.op \in {"decompress", "doc_decompress"} -> DecompressOK(last.pre[i], ss[i])
-               [] OTHER -> TRUE
+Good4(i) ==
+    IF ~Touched(i) THEN last.op = "init" \/ ss[i] = last.pre[i]
+    ELSE CASE last.op = "set_content"       -> SetContentOK(last.pre[i], last.arg, ss[i])
+           [] last.op = "set_plain_content" -> SetPlainOK(last.pre[i], last.arg, ss[i])
+           [] last.op \in {"compress", "doc_compress"}     -> CompressOK(last.pre[i], ss[i])
+           [] last.op \in {"decompress", "doc_decompress"} -> DecompressOK(last.pre[i], ss[i])
+           [] OTHER -> TRUE
+StepOK == \A i \in 1..2 : Good4(i)
+
+\* "as the code is" (a deviation switch on): the contract is broken - reported as a DEVIATION line -
+\* but only on inputs of the listed class
+StepOKModKnown ==
+    \A i \in 1..2 : ~Good4(i) =>
+        /\ KnownClasses(last.pre[i], last.op) # {}
+        /\ PrintT(<<"DEVIATION", ToJson(SetToSeq(KnownClasses(last.pre[i], last.op)))>>)
+
+\* one line per operation kind (anti-vacuity: every action was taken)
+ActionPrint == steps = 1 => PrintT(<<"ACTION", ToJson(last.op)>>)
 
 \* witnesses (anti-vacuity; always TRUE, the check script requires both lines): a compress that really
 \* adds the filter, and a decompress that undoes that compression and returns the original bytes
